@@ -365,3 +365,18 @@ def r8(ctx):
         yield VIOL("C02-R8", "trim/trim_ascii", "trim_ascii is not trim_ascii_end(trim_ascii_start(bytes)) (calls: %s)" % names, where=loc(b.j["span"]))
     else:
         yield PASS("C02-R8", "trim/trim_ascii", "trim_ascii_end(trim_ascii_start(bytes))", [loc(b.j["span"])])
+
+
+@M.rule("C02-R9", "latin1_to_string widens each byte to the character of the same value: all bytes, in order, nothing decoded")
+def r9(ctx):
+    """Credential, signature, session token, signed-header names and the date of the header carrier all pass through this
+    helper; a fast path that returns the bytes *decoded as UTF-8* when they happen to be well-formed gives U+00E9 for
+    `c3 a9` where the client sent two characters: another access key is looked up, a foreign scope compares equal, and a
+    non-ASCII decimal digit reaches the `\\d{4}` of the timestamp regex (whose integer conversion then panics)."""
+    b = ctx.fn("canonical::latin1_to_string")
+    ctx.count()
+    pr = latin1_problems(b)
+    if pr:
+        yield VIOL("C02-R9", "latin1_to_string/byte-widening", "; ".join(pr), where=loc(b.j["span"]))
+    else:
+        yield PASS("C02-R9", "latin1_to_string/byte-widening", "result = each input byte `as char`, whole slice, in order", [loc(b.j["span"])])
